@@ -112,7 +112,10 @@ def normalize_path_middleware(
                 path = re.sub("^//+", "/", path)  # SECURITY: GHSA-v6wp-4m6f-gcjg
                 resolves, request = await _check_request_resolves(request, path)
                 if resolves:
-                    raise redirect_class(request.raw_path + query)
+                    # The alternative request has the path re-quoted by yarl, which
+                    # drops what it cannot encode: guard the Location that is sent.
+                    location = re.sub("^//+", "/", request.raw_path)
+                    raise redirect_class(location + query)
 
         return await handler(request)
 
